@@ -2,6 +2,7 @@ package jsonapi
 
 import (
 	"encoding/json"
+	"errors"
 	"reflect"
 	"sort"
 )
@@ -171,10 +172,18 @@ func UnmarshalResource(data []byte, schema *Schema) (Resource, error) {
 				if rel.ToOne {
 					var iden Identifier
 					err = json.Unmarshal(v.Data, &iden)
+
+					if err == nil {
+						err = checkLinkage(rel, v.Data, iden)
+					}
 					res.Set(rel.FromName, iden.ID)
 				} else {
 					var idens Identifiers
 					err = json.Unmarshal(v.Data, &idens)
+
+					if err == nil {
+						err = checkLinkage(rel, v.Data, idens...)
+					}
 					ids := make([]string, len(idens))
 					for i := range idens {
 						ids[i] = idens[i].ID
@@ -201,6 +210,28 @@ func UnmarshalResource(data []byte, schema *Schema) (Resource, error) {
 	}
 
 	return res, nil
+}
+
+// checkLinkage makes sure that the resource linkage found in the data member of
+// a relationship object is valid for rel: null is only valid for a to-one
+// relationship and each identifier must be of the type the relationship points
+// to.
+func checkLinkage(rel Rel, data []byte, idens ...Identifier) error {
+	if string(data) == "null" {
+		if rel.ToOne {
+			return nil
+		}
+
+		return errors.New("jsonapi: linkage of a to-many relationship cannot be null")
+	}
+
+	for _, iden := range idens {
+		if iden.Type != rel.ToType {
+			return errors.New("jsonapi: linkage has the wrong type")
+		}
+	}
+
+	return nil
 }
 
 // UnmarshalPartialResource unmarshals the given payload into a *SoftResource.
@@ -254,11 +285,19 @@ func UnmarshalPartialResource(data []byte, schema *Schema) (*SoftResource, error
 				if rel.ToOne {
 					var iden Identifier
 					err = json.Unmarshal(v.Data, &iden)
+
+					if err == nil {
+						err = checkLinkage(rel, v.Data, iden)
+					}
 					_ = newType.AddRel(rel)
 					res.Set(rel.FromName, iden.ID)
 				} else {
 					var idens Identifiers
 					err = json.Unmarshal(v.Data, &idens)
+
+					if err == nil {
+						err = checkLinkage(rel, v.Data, idens...)
+					}
 					ids := make([]string, len(idens))
 					for i := range idens {
 						ids[i] = idens[i].ID
